@@ -64,6 +64,9 @@ func (fr *frame) execBlock(st *State, list []ast.Stmt) []Outcome {
 func one(st *State) []Outcome { return []Outcome{{st: st, ctl: cNormal}} }
 
 func (fr *frame) exec(st *State, s ast.Stmt) []Outcome {
+	if _, isBlock := s.(*ast.BlockStmt); !isBlock {
+		fr.fc.lastPos = fr.fc.reg.fset.Position(s.Pos()).String()
+	}
 	switch x := s.(type) {
 	case *ast.BlockStmt:
 		return fr.execBlock(st, x.List)
@@ -618,21 +621,40 @@ func (fr *frame) doReturn(st *State, vals []*Value, stmt *ast.ReturnStmt) []Outc
 
 func (fr *frame) lockOp(st *State, lockExpr ast.Expr, acquire bool, read bool) {
 	fc := fr.fc
-	sel, ok := unparen(lockExpr).(*ast.SelectorExpr)
-	if !ok {
+	// two shapes: `x.mu.Lock()` (lockExpr = x.mu) and, for an embedded mutex, `x.Lock()` (lockExpr = x,
+	// the lock is then named after the embedded field, e.g. RWMutex)
+	var ownerExpr ast.Expr
+	var lockName string
+	if sel, ok := unparen(lockExpr).(*ast.SelectorExpr); ok {
+		if s, ok := fr.info.Selections[sel]; ok && s.Kind() == types.FieldVal {
+			if tn := typeName(s.Obj().Type()); tn == "sync.Mutex" || tn == "sync.RWMutex" {
+				ownerExpr, lockName = sel.X, sel.Sel.Name
+			}
+		}
+	}
+	if ownerExpr == nil {
+		t := fr.typeOf(lockExpr)
+		if p, ok := t.Underlying().(*types.Pointer); ok {
+			t = p.Elem()
+		}
+		if stt, ok := t.Underlying().(*types.Struct); ok {
+			for i := 0; i < stt.NumFields(); i++ {
+				f := stt.Field(i)
+				if f.Embedded() && (typeName(f.Type()) == "sync.Mutex" || typeName(f.Type()) == "sync.RWMutex") {
+					ownerExpr, lockName = lockExpr, f.Name()
+				}
+			}
+		}
+	}
+	if ownerExpr == nil {
 		fc.reg.assumptions["lock "+exprString(lockExpr)+" not modelled"] = true
 		return
 	}
-	s, ok := fr.info.Selections[sel]
-	if !ok || s.Kind() != types.FieldVal {
-		fc.reg.assumptions["lock "+exprString(lockExpr)+" not modelled"] = true
-		return
-	}
-	ownerT := fr.typeOf(sel.X)
+	sel := &ast.SelectorExpr{X: ownerExpr, Sel: &ast.Ident{Name: lockName}}
+	ownerT := fr.typeOf(ownerExpr)
 	if p, ok := ownerT.Underlying().(*types.Pointer); ok {
 		ownerT = p.Elem()
 	}
-	// the lock may be promoted through embedded structs; use the struct that declares it
 	n, ok := ownerT.(*types.Named)
 	if !ok {
 		fc.reg.assumptions["lock "+exprString(lockExpr)+" not modelled"] = true
